@@ -38,6 +38,14 @@
 (*               and x reaches the variable on no other path               *)
 (*               (LawSelectExact).                                         *)
 (*                                                                         *)
+(*  NAMES        parameter and output names are opaque identities: scopes   *)
+(*               ("sc.x") and renames change names and nothing else, two   *)
+(*               different names are two arrays however much text they     *)
+(*               share (section 6: Renamed, LawRenamedAnalysis,            *)
+(*               LawRenamedCoords) - a coordinate of the dataset that is   *)
+(*               read back from the run folder carries the values of ITS   *)
+(*               OWN input.                                                *)
+(*                                                                         *)
 (* Don't-care (both readings of "zipped inputs are combined" accepted, see *)
 (* AcceptableOn): the implementation builds the index per VARIABLE and     *)
 (* merges, so next to "a:c" (variable w zips a with c) the dataset may     *)
@@ -229,4 +237,53 @@ LawSelectExact(A, den, S, li) == \A ax \in AxesTuples(A, S, li) : \A g \in Candi
     \A o \in LabelledBy(A, S, li, g, ax) : \A k \in Indices(CoordShape(den, g, ax)) :
         \A t \in Indices(VarShape(A, den, o)) : ~Agrees(A.dims[o], ax, k, t) =>
             \A x \in g : ~ContainsAt(A, At(den[o], t), x, At(den[x], k))
+
+---------------------------------------------------------------------------
+(* 6. Names are opaque (scopes).                                             *)
+(* A parameter or output name is nothing but an identity: `Pipeline.update_scope("sc", ...)` / `scope=` / `renames` *)
+(* replace names (x -> "sc.x") and change NOTHING else.  So for every injective renaming r of the names of a         *)
+(* description the dataset of the renamed pipeline is the renamed dataset: the same dimensions, every coordinate      *)
+(* on the same axes with the values of ITS OWN input (the input that carries the new name), every variable with the   *)
+(* renamed terms.  In particular two names stay two arrays however much text they share: a common scope prefix        *)
+(* ("sc.a", "sc.b"), a common last component ("p.v", "q.v"), one name being the other plus a scope.  Whatever the      *)
+(* implementation derives from a name (a file in the run folder's inputs/ or outputs/ directory, a key of            *)
+(* RunInfo, an index level) must therefore be injective in the WHOLE name.                                            *)
+(* What may change is only the ORDER of the levels inside one combined index "a:b" - it is alphabetical in the names  *)
+(* as they are (`ord` of CoordOf), so "a:c" may become "c:sc.a".                                                      *)
+Ren(r, n)        == IF n \in DOMAIN r THEN r[n] ELSE n
+RenSet(r, S)     == {Ren(r, n) : n \in S}
+RenSeq(r, s)     == [k \in DOMAIN s |-> Ren(r, s[k])]
+RenPairs(r, ps)  == [k \in DOMAIN ps |-> <<Ren(r, ps[k][1]), ps[k][2]>>]          \* inputs, defaults, bound: name -> value
+RenSpecs(r, sps) == [k \in DOMAIN sps |-> [name |-> Ren(r, sps[k].name), axes |-> sps[k].axes]]   \* axis names are not names
+RenFunc(r, fn)   == [fn EXCEPT !.params = RenSeq(r, @), !.outputs = RenSeq(r, @), !.defaults = RenPairs(r, @),
+                               !.bound = RenPairs(r, @), !.ms = [ins |-> RenSpecs(r, @.ins), outs |-> RenSpecs(r, @.outs)]]
+Renamed(d, r)    == [d EXCEPT !.funcs = [i \in DOMAIN @ |-> RenFunc(r, @[i])]]
+(* values: the head of an application is the name of the output it computes (PipelineStatic), input atoms stay     *)
+RECURSIVE RenTerm(_, _)
+RenTerm(r, T)    == [f |-> Ren(r, T.f), a |-> [k \in DOMAIN T.a |-> RenTerm(r, T.a[k])]]
+NamesOf(d)       == AllOutputs(d) \cup AllParams(d)
+(* r renames names of d to NEW names, one to one *)
+IsRenaming(d, r) == /\ DOMAIN r \subseteq NamesOf(d)
+                    /\ \A n1, n2 \in DOMAIN r : n1 # n2 => r[n1] # r[n2]
+                    /\ \A n \in DOMAIN r : r[n] \notin NamesOf(d)
+(* `Pipeline.update_scope(scope, ...)` on the names in `sel` *)
+ScopeRenaming(scope, sel) == [n \in sel |-> scope \o "." \o n]
+
+(* the analysis of the renamed description is the renamed analysis, its denotation the renamed denotation *)
+LawRenamedAnalysis(d, inp, r, A2, den2) ==
+    LET A == Analysis(d)  den == MapDenote(d, inp) IN
+    /\ IsRenaming(d, r)
+    /\ A2.outs = RenSet(r, A.outs) /\ A2.mapped = RenSet(r, A.mapped) /\ A2.leaves = RenSet(r, A.leaves)
+    /\ DOMAIN A2.axes = RenSet(r, DOMAIN A.axes) /\ \A n \in DOMAIN A.axes : A2.axes[Ren(r, n)] = A.axes[n]
+    /\ \A o \in A.outs : A2.dims[Ren(r, o)] = A.dims[o] /\ A2.params[Ren(r, o)] = RenSeq(r, A.params[o])
+    /\ A2.carried = {<<Ren(r, p[1]), Ren(r, p[2])>> : p \in A.carried}
+    /\ DOMAIN den2 = RenSet(r, DOMAIN den) /\ \A n \in DOMAIN den : den2[Ren(r, n)] = RenTerm(r, den[n])
+(* ... hence the same coordinates: per selection and switch the same axes tuples, the renamed candidate groups and   *)
+(* the renamed acceptable sets; every level of a coordinate holds the value of the input that now carries its name   *)
+LawRenamedCoords(d, r, A2, S, li) ==
+    LET A == Analysis(d)  S2 == RenSet(r, S) IN
+    /\ AxesTuples(A2, S2, li) = AxesTuples(A, S, li)
+    /\ \A ax \in AxesTuples(A, S, li) :
+           /\ CandidatesOn(A2, S2, li, ax) = {RenSet(r, g) : g \in CandidatesOn(A, S, li, ax)}
+           /\ AcceptableOn(A2, S2, li, ax) = {{RenSet(r, g) : g \in C} : C \in AcceptableOn(A, S, li, ax)}
 =============================================================================
